@@ -42,7 +42,7 @@ def plan(tier):
     return {"cases": 8000 if tier == "quick" else 80000, "shards": 16, "case_timeout": 30, "shard_timeout": 3000,
             "min_nontrivial": 100,
             "min_counters": {"instances_compared": 5000, "kind:ref": 300, "kind:alt": 300, "kind:next": 300,
-                             "bindings_interpreted": 5000, "worlds_with_equal_but_distinct_objects": 500, "tag_selections": 300}}
+                             "bindings_interpreted": 5000, "worlds_with_equal_but_distinct_objects": 500, "tag_selections": 300, "trees_inside_an_enclosing_query": 150}}
 
 
 def setup(ctx):
@@ -118,6 +118,8 @@ def gen_flat(rng):
 
     def rule(depth):
         r = {"id": f"r{next(counter)}", "cond": atom(), "children": [], "concl": rng.choice(["xe", "xe", "x"])}
+        if r["concl"] == "xe" and rng.random() < 0.4:
+            r["derived_argument"] = True    # the conclusion takes an attribute of the flattened value, not the value itself
         if depth > 0:
             for _ in range(rng.choice([0, 1, 1, 2])):
                 r["children"].append([rng.choice(["ref", "alt", "alt"]), rule(depth - 1)])
@@ -170,6 +172,8 @@ def gen(rng, tier, ctx):
         case["equal_objects"] = True
     if rng.random() < 0.12:
         case["select_tag"] = True
+    elif rng.random() < 0.15:
+        case["outer"] = True
     return case
 
 
@@ -440,7 +444,7 @@ def build_and_run(spec, m, objs):
         if len(names) > 1 and r.get("concl", "xy") == "xy":
             kw["q"] = V[names[1]]
         if r.get("concl") == "xe":
-            kw["q"] = V["e"]
+            kw["q"] = V["e"].real if r.get("derived_argument") else V["e"]
         Add(v, inference(m.V)(**kw))
 
     def write(r):
@@ -472,6 +476,12 @@ def build_and_run(spec, m, objs):
         return list(q.evaluate())
     with q:
         write(spec["rule"])
+    if spec.get("outer_now"):
+        # the rule tree stands inside an enclosing query: it is evaluated once for every value of z
+        from krrood.entity_query_language.entity import set_of
+        z = let(int, [1, 2], name="z")
+        rows = list(an(set_of([z, q], z >= 1, q.tag != "<no such tag>")).evaluate())
+        return [[r[q] for r in rows if r[z] == k] for k in (1, 2)]
     return list(q.evaluate())
 
 
@@ -563,18 +573,39 @@ def run(spec, ctx):
         return {"status": "fail", "kind": "tag-selection", "key": key,
                 "detail": f"entity(v.tag, ...) gives tags {sorted(set(map(str, res)))[:6]} (non-strings {odd[:2]}), the instances the tree "
                           f"concludes have tags {sorted(want)[:6]} | tree={shape_of(spec['rule'])}"}
-    got = set()
-    bad_inst = []
-    for r in res:
-        if not isinstance(r, m.V):
-            bad_inst.append(repr(r))
-            continue
-        if flat:
-            key = (r.tag, idmap.get(id(r.p), "?"), r.q)
-        else:
-            key = (r.tag, idmap.get(id(r.p), "?")) + (((idmap.get(id(r.q), "?") if r.q is not None else None),) if len(names) > 1 else ())
-        got.add(key)
+    def keys_of(instances):
+        out, bad = set(), []
+        for r in instances:
+            if not isinstance(r, m.V):
+                bad.append(repr(r))
+                continue
+            if flat:
+                key = (r.tag, idmap.get(id(r.p), "?"), r.q)
+            else:
+                key = (r.tag, idmap.get(id(r.p), "?")) + (((idmap.get(id(r.q), "?") if r.q is not None else None),) if len(names) > 1 else ())
+            out.add(key)
+        return out, bad
+
+    got, bad_inst = keys_of(res)
     C["instances_compared"] += len(got)
+    if got == exp and not bad_inst and spec.get("outer") and not spec.get("grow") and not flat:
+        # the same tree inside an enclosing query over two values: the same instances for each of them
+        try:
+            halves = build_and_run(dict(spec, outer_now=True), m, G.make_world(spec, m))
+        except Exception as e:
+            recover(ctx)
+            return {"status": "fail", "kind": "exception:" + type(e).__name__, "key": classify(feats, None),
+                    "detail": f"inside an enclosing query: {type(e).__name__}: {e}"[:300] + " | " + shape_of(spec["rule"])}
+        C["trees_inside_an_enclosing_query"] += 1
+        objs2 = None
+        for k, half in enumerate(halves):
+            # (another world of the same spec: compare by the position of the objects)
+            tags = sorted((r.tag, r.p.name) + ((r.q.name if r.q is not None else None,) if len(names) > 1 else ()) for r in half if isinstance(r, m.V))
+            want = sorted((key[0], objs[key[1]].name) + ((objs[key[2]].name if key[2] is not None else None,) if len(names) > 1 else ()) for key in exp)
+            if sorted(set(tags)) != want:
+                C["fail:UNEXPLAINED"] += 1
+                return {"status": "fail", "kind": "inside-an-enclosing-query", "key": classify(feats, (bool(set(tags) - set(want)), bool(set(want) - set(tags)))),
+                        "detail": f"for value {k + 1} of the enclosing variable the tree gives {len(set(tags))} instances, alone it gives {len(want)} | tree={shape_of(spec['rule'])}"}
     if got == exp and not bad_inst:
         distinct_fired = {k for k in fired_sets if k}
         nontrivial = len(fired_sets) >= 2 and len(distinct_fired) >= 1 and bool(spec["rule"]["children"])
